@@ -169,6 +169,8 @@ class SymStr:
             return SymStr(self.items[slice(start, stop, step)])._norm()
         if isinstance(k, SymInt):
             k = k.__index__()
+        if not -len(self.items) <= k < len(self.items):
+            raise core.emulated(IndexError("string index out of range"))
         return SymStr((self.items[k],))._norm()
 
     def __add__(self, o):
@@ -439,7 +441,7 @@ def concretise(s):
         if isinstance(it, str):
             out.append(it)
         elif isinstance(it, SymChar):
-            v = c.concretise_int(it.e)
+            v = c.concretise_int(it.e, cap=128)
             out.append(chr(v))
         else:
             v = core.concrete_value(it.v)
